@@ -32,6 +32,18 @@ class HasPi (α : Type) where
 
 instance : HasPi Float := ⟨3.141592653589793⟩
 
+/-- `np.sin` and `np.log1p` (`ln(1 + x)`), used by the Seeger-Beste middle term. -/
+class HasSinLog1p (α : Type) where
+  sin : α → α
+  log1p : α → α
+
+/-- `log1p` at `Float` without loss of digits for small `x` (Kahan): `ln(w) · x / (w − 1)` with `w = 1 + x`. -/
+def floatLog1p (x : Float) : Float :=
+  let w := 1.0 + x
+  if w == 1.0 then x else if w - 1.0 == x then Float.log w else Float.log w * (x / (w - 1.0))
+
+instance : HasSinLog1p Float := ⟨Float.sin, floatLog1p⟩
+
 variable {α : Type} [Add α] [Sub α] [Mul α] [Div α] [Neg α] [OfScientific α]
   [LT α] [LE α] [DecidableLT α] [DecidableLE α] [Transc α]
 
@@ -75,19 +87,33 @@ def neuberStrainSec (m : Mat α) (ds dL : α) : α := ratio dL ds * m.Kp * delta
 /-- `ExtendedNeuber._stress_secondary_implicit(Δσ, ΔL)` = `_load_secondary_implicit(ΔL, Δσ)` (eq. 2.5-46). -/
 def stressSecImplicit (m : Mat α) (ds dL : α) : α := roDeltaStrain m ds - neuberStrainSec m ds dL
 
-variable [HasPi α]
+/-- `ExtendedNeuber.strain(σ, L)` = `SeegerBeste.strain(σ, L)`: the Ramberg-Osgood strain of the stress (the load
+argument is not used by the code). -/
+def lawStrain (m : Mat α) (s _L : α) : α := roStrain m s
+
+/-- `strain_secondary_branch(Δσ, ΔL)` of both laws: the Masing-doubled Ramberg-Osgood strain of the stress range. -/
+def lawStrainSec (m : Mat α) (ds _dL : α) : α := roDeltaStrain m ds
+
+variable [HasPi α] [HasSinLog1p α]
 
 /-- `SeegerBeste._u_term` (= `_u_term_secondary`): `π/2 · ((L/σ − 1) / (K_p − 1))`. -/
 def uTerm (m : Mat α) (s L : α) : α := (HasPi.pi / 2.0) * ((ratio L s - 1.0) / (m.Kp - 1.0))
 
 /-- `SeegerBeste._middle_term` (= `_middle_term_secondary`):
-`2/u² · ln(1/cos u) + (σ/L)² − σ/L` with the three `np.divide(…, where=…)` fall-backs. -/
+`2/u² · ln(1/cos u) + (σ/L)² − σ/L` with the three `np.divide(…, where=…)` fall-backs.
+
+The logarithm is written in the form of the REPAIRED code (tools/fixes/C06-seegerbeste-middle-term-small-u.diff):
+`ln(1/cos u) = ln(1 + 2 sin²(u/2) / cos u) = log1p(2 sin²(u/2) / cos u)` where `cos u > 0`, fall-back `log1p(0) = 0`
+elsewhere - the same fall-back value as `ln(1)` of the original form `np.log(np.divide(1, cos u, out=ones, where=cos u > 0))`.
+Over ℝ both forms are the same function (`Proofs/Lemmas/Notch.lean: middleTerm_eq` restates it with `Real.log (1 / cos u)`);
+at `Float` the original form loses all digits for `u → 0` (`cos u → 1`), i.e. for stresses next to the load. -/
 def middleTerm (m : Mat α) (s L : α) : α :=
   let factor := ratio s L
   let u := uTerm m s L
   let f1 := if nz u then 2.0 / (u * u) else 1.0
-  let f2 := if 0.0 < Transc.cos u then 1.0 / Transc.cos u else 1.0
-  f1 * Transc.log f2 + factor * factor - factor
+  let h := HasSinLog1p.sin (u / 2.0)
+  let f2 := if 0.0 < Transc.cos u then 2.0 * (h * h) / Transc.cos u else 0.0
+  f1 * HasSinLog1p.log1p f2 + factor * factor - factor
 
 /-- `SeegerBeste._stress_implicit(σ, L)` = `_load_implicit(L, σ)` (eq. 2.8-42, quotient form). -/
 def sbStressImplicit (m : Mat α) (s L : α) : α :=
